@@ -469,11 +469,272 @@ func checkSharedStateUse(p *Prog, r *Report, rule string, funcs []*ssa.Function)
 					seen[name] = true
 					if why, ok := sharedStateAllow[name]; ok {
 						r.OK(rule, "uses package-level "+name, p.Pos(instrPos(in)), why)
+					} else if ro, whyNot := globalReadOnly(p, gl); ro {
+						r.OK(rule, "uses package-level "+name, p.Pos(instrPos(in)), "structurally read-only: written only by package initialisation, every other reference in the module is a read whose value is not stored, passed on or updated")
 					} else {
-						r.Bad(rule, "uses package-level "+name, p.Pos(instrPos(in)), "session-reachable code ("+funcKey(fn)+") uses process-wide state that is not in the reviewed allow-table: data or decisions can carry over from one session to another")
+						r.Bad(rule, "uses package-level "+name, p.Pos(instrPos(in)), "session-reachable code ("+funcKey(fn)+") uses process-wide state that is neither in the reviewed allow-table nor structurally read-only ("+whyNot+"): data or decisions can carry over from one session to another")
 					}
 				}
 			}
 		}
 	}
+}
+
+// globalReadOnly: outside package initialisation, every reference to gl in the
+// module is a load (or a field/element address that is only loaded), and the
+// loaded value - when it can alias the variable's storage (map, slice,
+// pointer, ...) - is only looked up, ranged over, indexed, compared, measured
+// or called; it is never stored, passed to a call, sent, or updated. Function
+// values count as read-only only if the package's initialiser creates no
+// closure with captured variables (a captured counter would be shared state).
+func globalReadOnly(p *Prog, gl *ssa.Global) (bool, string) {
+	isInit := func(fn *ssa.Function) bool {
+		for fn.Parent() != nil {
+			fn = fn.Parent()
+		}
+		return fn.Pkg == gl.Pkg && (fn.Name() == "init" || strings.HasPrefix(fn.Name(), "init#"))
+	}
+	if typeHasFunc(gl.Type(), 0) {
+		for _, fn := range p.ModFuncs {
+			if !isInit(fn) {
+				continue
+			}
+			for _, b := range fn.Blocks {
+				for _, in := range b.Instrs {
+					if mc, ok := in.(*ssa.MakeClosure); ok && len(mc.Bindings) > 0 {
+						return false, "initialiser creates a closure with captured variables"
+					}
+				}
+			}
+		}
+	}
+	seen := map[ssa.Value]bool{}
+	var valOK func(v ssa.Value) bool
+	var addrOK func(a ssa.Value) bool
+	var copyOK func(a ssa.Value) bool
+	copyOK = func(a ssa.Value) bool { // a: address of (part of) a local copy of a loaded value
+		if seen[a] {
+			return true
+		}
+		seen[a] = true
+		refs := a.Referrers()
+		if refs == nil {
+			return false
+		}
+		for _, ref := range *refs {
+			switch x := ref.(type) {
+			case *ssa.UnOp:
+				if x.Op != token.MUL || !valOK(x) {
+					return false
+				}
+			case *ssa.Store:
+				if x.Addr != a {
+					return false // the address itself is stored somewhere
+				}
+			case *ssa.FieldAddr:
+				if !copyOK(x) {
+					return false
+				}
+			case *ssa.IndexAddr:
+				if x.X != a || !copyOK(x) {
+					return false
+				}
+			case *ssa.DebugRef:
+			default:
+				return false
+			}
+		}
+		return true
+	}
+	addrOK = func(a ssa.Value) bool { // a: an address inside the variable
+		if seen[a] {
+			return true
+		}
+		seen[a] = true
+		refs := a.Referrers()
+		if refs == nil {
+			return false
+		}
+		for _, ref := range *refs {
+			switch x := ref.(type) {
+			case *ssa.UnOp:
+				if x.Op != token.MUL || !valOK(x) {
+					return false
+				}
+			case *ssa.FieldAddr:
+				if !addrOK(x) {
+					return false
+				}
+			case *ssa.IndexAddr:
+				if x.X != a || !addrOK(x) {
+					return false
+				}
+			case *ssa.DebugRef:
+			default:
+				return false
+			}
+		}
+		return true
+	}
+	valOK = func(v ssa.Value) bool {
+		if seen[v] {
+			return true
+		}
+		seen[v] = true
+		if !typeCanAlias(v.Type(), 0) {
+			return true // a copy
+		}
+		refs := v.Referrers()
+		if refs == nil {
+			return false
+		}
+		for _, ref := range *refs {
+			switch x := ref.(type) {
+			case *ssa.Lookup:
+				if x.X != v || !valOK(x) {
+					return false
+				}
+			case *ssa.Range:
+				if !valOK(x) {
+					return false
+				}
+			case *ssa.Next, *ssa.Extract, *ssa.Field, *ssa.Index, *ssa.Phi, *ssa.ChangeType, *ssa.Slice:
+				if !valOK(x.(ssa.Value)) {
+					return false
+				}
+			case *ssa.UnOp:
+				if x.Op == token.MUL {
+					if !valOK(x) {
+						return false
+					}
+				}
+			case *ssa.FieldAddr:
+				if !addrOK(x) {
+					return false
+				}
+			case *ssa.IndexAddr:
+				if x.X != v || !addrOK(x) {
+					return false
+				}
+			case *ssa.BinOp, *ssa.If, *ssa.DebugRef:
+			case *ssa.Store:
+				// copied into a local variable: follow the copy
+				al, isLocal := x.Addr.(*ssa.Alloc)
+				if x.Val != v || !isLocal || !copyOK(al) {
+					return false
+				}
+			case ssa.CallInstruction:
+				cc := x.Common()
+				if bi, ok := cc.Value.(*ssa.Builtin); ok && (bi.Name() == "len" || bi.Name() == "cap") {
+					continue
+				}
+				if cc.Value == v && !cc.IsInvoke() {
+					used := false
+					for _, a := range cc.Args {
+						if a == v {
+							used = true
+						}
+					}
+					if !used {
+						continue // calling a function value from the table
+					}
+				}
+				return false
+			default:
+				return false
+			}
+		}
+		return true
+	}
+	for _, fn := range p.ModFuncs {
+		if isInit(fn) {
+			continue
+		}
+		for _, b := range fn.Blocks {
+			for _, in := range b.Instrs {
+				uses := false
+				for _, op := range in.Operands(nil) {
+					if *op == ssa.Value(gl) {
+						uses = true
+					}
+				}
+				if !uses {
+					continue
+				}
+				switch x := in.(type) {
+				case *ssa.UnOp:
+					if x.Op != token.MUL || !valOK(x) {
+						return false, "loaded value of " + gl.Name() + " is stored, passed on or updated in " + funcKey(fn)
+					}
+				case *ssa.FieldAddr:
+					if !addrOK(x) {
+						return false, "address into " + gl.Name() + " escapes in " + funcKey(fn)
+					}
+				case *ssa.IndexAddr:
+					if !addrOK(x) {
+						return false, "address into " + gl.Name() + " escapes in " + funcKey(fn)
+					}
+				case *ssa.DebugRef:
+				default:
+					return false, gl.Name() + " is written or its address taken in " + funcKey(fn)
+				}
+			}
+		}
+	}
+	return true, ""
+}
+
+// typeCanAlias: a value of type t may share storage with its source.
+func typeCanAlias(t types.Type, depth int) bool {
+	if depth > 6 {
+		return true
+	}
+	switch u := t.Underlying().(type) {
+	case *types.Basic:
+		return u.Kind() == types.UnsafePointer
+	case *types.Struct:
+		for i := 0; i < u.NumFields(); i++ {
+			if typeCanAlias(u.Field(i).Type(), depth+1) {
+				return true
+			}
+		}
+		return false
+	case *types.Array:
+		return typeCanAlias(u.Elem(), depth+1)
+	case *types.Tuple:
+		for i := 0; i < u.Len(); i++ {
+			if typeCanAlias(u.At(i).Type(), depth+1) {
+				return true
+			}
+		}
+		return false
+	}
+	return true
+}
+
+func typeHasFunc(t types.Type, depth int) bool {
+	if depth > 6 {
+		return true
+	}
+	switch u := t.Underlying().(type) {
+	case *types.Signature, *types.Interface:
+		return true
+	case *types.Pointer:
+		return typeHasFunc(u.Elem(), depth+1)
+	case *types.Map:
+		return typeHasFunc(u.Elem(), depth+1) || typeHasFunc(u.Key(), depth+1)
+	case *types.Slice:
+		return typeHasFunc(u.Elem(), depth+1)
+	case *types.Array:
+		return typeHasFunc(u.Elem(), depth+1)
+	case *types.Chan:
+		return true
+	case *types.Struct:
+		for i := 0; i < u.NumFields(); i++ {
+			if typeHasFunc(u.Field(i).Type(), depth+1) {
+				return true
+			}
+		}
+	}
+	return false
 }
